@@ -77,11 +77,18 @@ func VerifH_C19_lokiValues() {
 	for i := 0; i < n; i++ {
 		id := string(rune('0' + i))
 		doc := `{"ts":"100` + id + `","message":"m` + id + `","k":"v` + id + `"}`
+		badTs := vf.Choose("timestamp-not-unix-nano", 3) == 2
+		if badTs {
+			doc = `{"ts":"2024-01-01T00:00:00Z","message":"m` + id + `","k":"v` + id + `"}`
+		}
 		root := insaneJSON.Spawn()
 		_ = root.DecodeString(doc)
 		ev := &pipeline.Event{Root: root, Size: len(doc)}
 		if vf.Choose("parent", 3) == 2 {
 			ev.SetChildParentKind()
+		} else if badTs {
+			iterable = true // loki cannot take this one event; the others of the batch still have to go out
+			vf.Reach("event-with-bad-timestamp")
 		} else {
 			iterable = true
 			if !first {
@@ -107,6 +114,10 @@ func VerifH_C19_lokiValues() {
 		err = p.out(&wd, batch) // what RetriableBatcher does
 	}
 	vf.Assert(err == nil, "push-succeeds")
+	if len(verifBodies) == 0 {
+		vf.Fail("batch-reported-done-without-a-push")
+		return
+	}
 	last := string(verifBodies[len(verifBodies)-1])
 	if vf.Param("twin", 0) == 1 {
 		vf.Assert(last != want, "one-triple-per-event-built-from-that-event-only")
